@@ -134,7 +134,11 @@ func genDspec(t *rapid.T, label string) dspec {
 // the exponent range limits are actually reached.
 func genPair(t *rapid.T) (dspec, dspec, string) {
 	x := genDspec(t, "x")
-	cls := gen.Pick(t, "pcls", []string{"indep", "align", "align", "cancel", "range_mul", "range_div", "same"})
+	cls := gen.Pick(t, "pcls", []string{"indep", "align", "align", "cancel", "range_mul", "range_div", "same", "pow10_edge"})
+	if cls == "pow10_edge" {
+		x, y := genPow10Edge(t)
+		return x, y, cls
+	}
 	if x.inf != 0 || x.coef == 0 {
 		cls = "indep"
 	}
@@ -178,6 +182,105 @@ func genPair(t *rapid.T) (dspec, dspec, string) {
 		x, y = y, x
 	}
 	return x, y, cls
+}
+
+// genPow10Edge draws operands whose exact product, quotient or sum lies at a
+// power of ten or within about half a unit of the 16th/17th digit of one:
+// there rounding carries into a new leading digit and the result has to be
+// normalised again.
+func genPow10Edge(t *rapid.T) (x, y dspec) {
+	ex, ey := genExp(t, "ex"), genExp(t, "ey")
+	if gen.Chance(t, "moderate", 50) {
+		ex, ey = gen.Uniform(t, "exm", 24)-6, gen.Uniform(t, "eym", 24)-6
+	}
+	small := func(label string) uint64 { return uint64(gen.Uniform(t, label, 13)) }
+	switch gen.Uniform(t, "pecls", 6) {
+	case 0: // (1 + i e-15) * (1 - j e-15)
+		x = dspec{coef: p10u[15] + small("i"), e: ex}
+		y = dspec{coef: p10u[16] - 10*(1+small("j")), e: ey}
+	case 1: // (1 + i e-15) * (1 - j e-16), 99..9 * (1 + small)
+		x = dspec{coef: p10u[15] + small("i"), e: ex}
+		y = dspec{coef: p10u[16] - 1 - small("j"), e: ey}
+	case 2: // x * (16 digit decimal next to 10^k / x): product at 10^k ± a few units of the 17th digit
+		xc := rapid.Uint64Range(p10u[15], p10u[16]-1).Draw(t, "xc")
+		q := new(big.Int).Quo(pow10Big(31), new(big.Int).SetUint64(xc)) // 10^15 < q <= 10^16
+		yc := q.Uint64() + small("d") - 6
+		yc = max(p10u[15], min(p10u[16]-1, yc))
+		x, y = dspec{coef: xc, e: ex}, dspec{coef: yc, e: ey}
+	case 3: // quotient 1 ± a few units of the 16th digit: adjacent coefficients
+		c := rapid.Uint64Range(p10u[15]+20, p10u[16]-20).Draw(t, "c")
+		if gen.Chance(t, "top", 50) {
+			c = gen.Pick(t, "cedge", []uint64{p10u[16] - 20, p10u[15] + 20, 5 * p10u[15]})
+		}
+		x, y = dspec{coef: c + small("i"), e: ex}, dspec{coef: c + small("j"), e: ey}
+	case 4: // sum at 10^16 ± a few units (carry into a 17th digit)
+		a := 1 + rapid.Uint64Range(0, 5000).Draw(t, "a")
+		x = dspec{coef: p10u[16] - a, e: ex}
+		b := a + small("d")
+		if b > 6 {
+			b -= 6
+		}
+		y = dspec{coef: b, e: clampE(ex - 16 + ndigits(b))}
+	default: // sum at 10^16 ± half a unit: y has one more decimal place ending in 5
+		a := 1 + rapid.Uint64Range(0, 5000).Draw(t, "a")
+		x = dspec{coef: p10u[16] - a, e: ex}
+		b := (a-1)*10 + gen.Pick(t, "half", []uint64{4, 5, 6, 14, 15, 16})
+		y = dspec{coef: b, e: clampE(ex - 17 + ndigits(b))}
+	}
+	x.neg, y.neg = rapid.Bool().Draw(t, "xneg"), rapid.Bool().Draw(t, "yneg")
+	if rapid.Bool().Draw(t, "swap") {
+		x, y = y, x
+	}
+	return
+}
+
+func pow10Big(e int) *big.Int { return new(big.Int).Exp(big.NewInt(10), big.NewInt(int64(e)), nil) }
+
+// c27Derived feeds a computed decimal d back into the comparison and text
+// properties: Compare/Equal against the same value built from its exact parts
+// and against other decimals must follow the exact values, and the text form
+// must parse back to d. (what is the origin of d, others are operands)
+func c27Derived(what string, d dnum.Dnum, skipStringExpMin bool, others ...dnum.Dnum) string {
+	v := xOfDnum(d)
+	if v.inf != 0 || v.r.Sign() == 0 {
+		return ""
+	}
+	// the same value constructed from (sign, 16 digit coefficient, exponent)
+	e := decExp(v.r)
+	if e >= -128 && e <= 127 {
+		c := new(big.Rat).Quo(ratAbs(v.r), gen.Pow10Rat(e-16))
+		if c.IsInt() && c.Num().IsUint64() {
+			sign := int8(1)
+			if v.r.Sign() < 0 {
+				sign = -1
+			}
+			ref := dnum.New(sign, c.Num().Uint64(), e)
+			if xEqual(xOfDnum(ref), v) {
+				if cmp := dnum.Compare(d, ref); cmp != 0 || !dnum.Equal(d, ref) {
+					return fmt.Sprintf("%s = %v: Compare with the same value built by New(%d, %s, %d) = %d, Equal = %v", what, v, sign, c.Num(), e, cmp, dnum.Equal(d, ref))
+				}
+			}
+		}
+	}
+	for _, o := range others {
+		if cmp, want := dnum.Compare(d, o), xCmp(v, xOfDnum(o)); cmp != want {
+			return fmt.Sprintf("%s = %v: Compare with %v = %d, exact order %d", what, v, xOfDnum(o), cmp, want)
+		}
+		if cmp, want := dnum.Compare(o, d), xCmp(xOfDnum(o), v); cmp != want {
+			return fmt.Sprintf("%s = %v: Compare(%v, result) = %d, exact order %d", what, v, xOfDnum(o), cmp, want)
+		}
+	}
+	if d.Exp() == -128 && skipStringExpMin {
+		return ""
+	}
+	s, back, perr := strRoundTrip(d)
+	if perr != nil {
+		return fmt.Sprintf("%s = %v: FromStr(String()) = FromStr(%q) panics: %v", what, v, s, perr)
+	}
+	if !dnum.Equal(back, d) || !xEqual(xOfDnum(back), v) {
+		return fmt.Sprintf("%s = %v: FromStr(String()) = FromStr(%q) = %v", what, v, s, xOfDnum(back))
+	}
+	return ""
 }
 
 // c27Known classifies a finite/finite operation into the known genuine defect
@@ -278,7 +381,8 @@ func infArith(op byte, x, y xnum) (want xnum, ok bool) {
 func c27Check(op byte, xs, ys dspec) (fail string, known string, v decVerdict, judged bool) {
 	xd, x := xs.build()
 	yd, y := ys.build()
-	got := xOfDnum(dnumOp(op, xd, yd))
+	res := dnumOp(op, xd, yd)
+	got := xOfDnum(res)
 	if x.inf != 0 || y.inf != 0 || (op == '/' && y.r.Sign() == 0) {
 		want, ok := infArith(op, x, y)
 		if !ok {
@@ -294,6 +398,10 @@ func c27Check(op byte, xs, ys dspec) (fail string, known string, v decVerdict, j
 	if !v.ok {
 		fail = fmt.Sprintf("%v %c %v = %v; exact %s, tolerance %s, error %.4g units (%s)",
 			xs, op, ys, got, sci(v.exact), v.tol.RatString(), v.errU, v.class)
+	} else {
+		// the computed value is itself a decimal: order and text of it
+		_, skip := kf.Known("C27", "string-exp-min")
+		fail = c27Derived(fmt.Sprintf("%v %c %v", xs, op, ys), res, skip, xd, yd)
 	}
 	return fail, known, v, true
 }
@@ -422,7 +530,11 @@ func TestC27(t *testing.T) {
 	// dnum.New itself: normalisation and rounding of 1..19 digit coefficients
 	rt.Check(t, rec, "new", 20000, 800000, func(t *rapid.T) {
 		var coef uint64
-		switch gen.Uniform(t, "ncls", 4) {
+		switch gen.Uniform(t, "ncls", 5) {
+		case 4: // sixteen 9s followed by 1..3 more digits: rounding carries to 10^16
+			k := 1 + gen.Uniform(t, "k", 3)
+			coef = (p10u[16]-1)*p10u[k] + uint64(gen.Uniform(t, "tail9", int(p10u[k])))
+			rec.Label("new_sixteen_nines")
 		case 0:
 			coef = genCoef(t, "c")
 		case 1: // 17..19 digits: rounding in New (FromInt path)
@@ -468,7 +580,8 @@ func TestC27(t *testing.T) {
 				return
 			}
 		}
-		got := xOfDnum(dnum.New(sign, coef, exp))
+		made := dnum.New(sign, coef, exp)
+		got := xOfDnum(made)
 		// judged as "x + 0": one unit of the 16th digit of the value
 		v := decArith('*', e, new(big.Rat).SetInt64(1), got)
 		if !v.ok {
@@ -477,12 +590,80 @@ func TestC27(t *testing.T) {
 		if nd <= 16 && v.class == "within" {
 			t.Fatalf("New(%d, %d, %d) = %v is not exact although the coefficient has %d digits", sign, coef, exp, got, nd)
 		}
+		if msg := c27Derived(fmt.Sprintf("New(%d, %d, %d)", sign, coef, exp), made, false); msg != "" {
+			t.Fatalf("%s", msg)
+		}
 		rec.Case(nd > 16 || ee > 125 || ee < -126, fmt.Sprintf("new %d %d %d", sign, coef, exp))
 		if nd <= 16 {
 			rec.Label("new_1..16digits_" + ulpClass(v))
 		} else {
 			rec.Label(fmt.Sprintf("new_%ddigits_%s", nd, ulpClass(v)))
 		}
+	})
+
+	// conversions that normalise through New: FromInt (judged: within one unit of
+	// the 16th digit, exact up to 16 digits) and FromFloat (its accuracy is not
+	// stated: only the order / text of the decimal it returns are judged)
+	rt.Check(t, rec, "convert", 10000, 400000, func(t *rapid.T) {
+		var n int64
+		cls := gen.Pick(t, "icls", []string{"any", "digits", "sixteen_nines", "pow10"})
+		switch cls {
+		case "any":
+			n = genInt64(t, "n")
+		case "digits":
+			nd := 1 + gen.Uniform(t, "nd", 19)
+			hi := int64(math.MaxInt64)
+			if nd < 19 {
+				hi = int64(p10u[nd]) - 1
+			}
+			n = rapid.Int64Range(int64(p10u[nd-1]), hi).Draw(t, "n")
+		case "sixteen_nines":
+			k := 1 + gen.Uniform(t, "k", 2) // 17 or 18 digits (19 digits of 9s exceed int64)
+			n = int64((p10u[16]-1)*p10u[k] + uint64(gen.Uniform(t, "tail", int(p10u[k]))))
+		default:
+			n = addClamp(int64(p10u[gen.Uniform(t, "e", 19)]), rapid.Int64Range(-60, 60).Draw(t, "d"))
+		}
+		if rapid.Bool().Draw(t, "neg") && n != math.MinInt64 {
+			n = -n
+		}
+		d := dnum.FromInt(n)
+		exact := new(big.Rat).SetInt64(n)
+		if n != 0 {
+			v := decArith('*', exact, new(big.Rat).SetInt64(1), xOfDnum(d))
+			if !v.ok || v.class != "exact" && intSig(exact) <= 16 {
+				t.Fatalf("FromInt(%d) = %v (%s, %.4g units)", n, xOfDnum(d), v.class, v.errU)
+			}
+			rec.Label("fromint_" + cls + "_" + ulpClass(v))
+		}
+		if msg := c27Derived(fmt.Sprintf("FromInt(%d)", n), d, false, dnum.FromInt(n/10), dnum.One); msg != "" {
+			t.Fatalf("%s", msg)
+		}
+		if back, ok := d.ToInt64(); intSig(exact) <= 16 && (!ok || back != n) {
+			t.Fatalf("FromInt(%d).ToInt64() = %d, %v", n, back, ok)
+		}
+		// a float next to a power of ten or to n
+		f := float64(n)
+		switch gen.Uniform(t, "fcls", 3) {
+		case 0:
+			f = math.Nextafter(math.Pow10(gen.Uniform(t, "fe", 40)-20), []float64{0, math.Inf(1)}[gen.Uniform(t, "dir", 2)])
+		case 1:
+			f = f / math.Pow10(gen.Uniform(t, "fscale", 20))
+		}
+		if f != 0 && !math.IsInf(f, 0) {
+			fd := func() (r dnum.Dnum) {
+				defer func() {
+					if e := recover(); e != nil {
+						t.Fatalf("FromFloat(%v) panics: %v", f, e)
+					}
+				}()
+				return dnum.FromFloat(f)
+			}()
+			if msg := c27Derived(fmt.Sprintf("FromFloat(%v)", f), fd, false, d, dnum.One); msg != "" {
+				t.Fatalf("%s", msg)
+			}
+			rec.Label("fromfloat")
+		}
+		rec.Case(intSig(exact) > 16, fmt.Sprintf("fromint %d", n))
 	})
 }
 
